@@ -25,7 +25,7 @@ def main():
         if not os.path.isfile(f"{d}/patch.diff"): continue
         if only and name not in only: continue
         prop = name.split("-")[0]
-        checks = EXTRA.get(name, RELATED[prop])
+        checks = EXTRA.get(name, RELATED[prop] if os.environ.get("MATRIX_RELATED") else RELATED[prop][:1])
         if sh(f"git -C /repo apply {d}/patch.diff").returncode != 0:
             print(name, "patch does not apply"); continue
         results = {}
